@@ -109,6 +109,58 @@ func (s Seg) appendTo(out []byte) []byte {
 		for i := 0; i < n; i++ {
 			out = append(out, out[len(out)-d])
 		}
+	case "distfib":
+		// matches of length 4 whose distance symbols have exact Fibonacci frequencies over A classes
+		// (the rarest once, the next once, then 2, 3, 5, ...): the optimal distance code is one chain
+		// A-1 deep, so from 17 classes on the 15-bit limiter has to run for the distance alphabet too.
+		// One match = d fresh random bytes, then a copy of the first 4 of them.
+		k := s.A
+		if k < 2 {
+			k = 2
+		}
+		if k > 22 {
+			k = 22
+		}
+		var order []int
+		fa, fb := 1, 1
+		for c := 0; c < k; c++ {
+			for j := 0; j < fa; j++ {
+				order = append(order, c)
+			}
+			fa, fb = fb, fa+fb
+		}
+		for i := len(order) - 1; i > 0; i-- {
+			j := int(x.next() % uint64(i+1))
+			order[i], order[j] = order[j], order[i]
+		}
+		start := len(out)
+		// lead-in of fresh random bytes (history for the far classes), then units of 8 bytes: a 4-byte copy
+		// from a window that contains at least two fresh random bytes (so it occurs nowhere nearer) at a
+		// distance inside the class's symbol, followed by 4 fresh random bytes
+		for i := 0; i < distFibLead; i++ {
+			out = append(out, byte(x.next()>>24))
+		}
+		for _, c := range order {
+			sym := 4 + (k - 1 - c) // class k-1 (the most frequent) gets distance symbol 4 (distances 5..6)
+			lo, hi := distFibBase[sym], distFibBase[sym+1]-1
+			d := lo
+			for cand := lo; cand <= hi; cand++ {
+				if m := (len(out) - start - distFibLead - cand) & 7; m >= 2 && m <= 6 || len(out)-start-cand < distFibLead {
+					d = cand
+					break
+				}
+			}
+			p := len(out) - d
+			out = append(out, out[p], out[p+1], out[p+2], out[p+3])
+			for i := 0; i < 4; i++ {
+				out = append(out, byte(x.next()>>24))
+			}
+		}
+		// exactly n bytes (n is DistFibLen(A) when the whole ladder is wanted)
+		for len(out)-start < n {
+			out = append(out, byte(x.next()>>24))
+		}
+		out = out[:start+n]
 	case "ladder":
 		// back-references whose length classes and distance classes follow a steeply decreasing
 		// frequency ladder: very deep Huffman trees for both alphabets (rare symbols get 13..15-bit codes).
@@ -304,6 +356,26 @@ func (s Seg) appendTo(out []byte) []byte {
 	}
 	return out
 }
+
+var distFibBase = []int{1, 2, 3, 4, 5, 7, 9, 13, 17, 25, 33, 49, 65, 97, 129, 193, 257, 385, 513, 769, 1025, 1537, 2049, 3073, 4097, 6145, 8193, 12289, 16385, 24577}
+
+// DistFibLen is the length of a complete "distfib" ladder over k distance classes.
+func DistFibLen(k int) int {
+	if k < 2 {
+		k = 2
+	}
+	if k > 22 {
+		k = 22
+	}
+	n, fa, fb := distFibLead, 1, 1
+	for c := 0; c < k; c++ {
+		n += fa * 8
+		fa, fb = fb, fa+fb
+	}
+	return n
+}
+
+const distFibLead = 2056
 
 // Thresholds are input sizes at which the compressors change behaviour.
 var Thresholds = []int{8, 258, 4096, 8192, 8450, 16892, 16900, 32768, 65536, 65794, 131072, 131580, 131588, 196608, 12804, 12796, 17158, 17142, 98820, 98812, 131846, 131830}
